@@ -16,6 +16,7 @@ var impls = map[string]func(string) string{
 	"chunk.disc":     implChunkDisc,
 	"fmt.next":       implFmtNext,
 	"hash":           implHash,
+	"ip.ops":         implIpOps,
 	"verify.index":   implVerifyIndex,
 	"arch.untar":     implUntar,
 	"arch.tar":       implTar,
